@@ -154,6 +154,11 @@ pub enum Op {
     DropHandle { ks: u8 },
     /// delete_keyspace through a kept handle of an already deleted incarnation of the name
     DeleteStale { ks: u8 },
+    /// delete_keyspace with an I/O failure inside (the meta keyspace cannot create its next table file)
+    FailedDelete { ks: u8 },
+    /// a batch committed while holding the handle of an already deleted incarnation of keyspace `ks`: its items for
+    /// `ks` go through that stale handle, the others through live handles
+    StaleBatch { ks: u8, items: Vec<WItem> },
     Rotate { ks: u8 },
     Step { n: u32 },
     Drain,
@@ -192,6 +197,8 @@ impl Op {
             Op::DeleteKs { .. } => "delete_ks",
             Op::DropHandle { .. } => "drop_handle",
             Op::DeleteStale { .. } => "delete_stale",
+            Op::FailedDelete { .. } => "failed_delete",
+            Op::StaleBatch { .. } => "stale_batch",
             Op::Rotate { .. } => "rotate",
             Op::Step { .. } => "step",
             Op::Drain => "drain",
@@ -239,6 +246,8 @@ impl Op {
             Op::DeleteKs { ks } => format!("delete_ks {ks}"),
             Op::DropHandle { ks } => format!("drop_handle {ks}"),
             Op::DeleteStale { ks } => format!("delete_stale {ks}"),
+            Op::FailedDelete { ks } => format!("failed_delete {ks}"),
+            Op::StaleBatch { ks, items } => format!("stale_batch {ks} {}", items.iter().map(WItem::enc).collect::<Vec<_>>().join(",")),
             Op::Rotate { ks } => format!("rotate {ks}"),
             Op::Step { n } => format!("step {n}"),
             Op::Drain => "drain".to_string(),
@@ -324,6 +333,16 @@ impl Op {
             "delete_stale" => Op::DeleteStale {
                 ks: it.next()?.parse().ok()?,
             },
+            "failed_delete" => Op::FailedDelete {
+                ks: it.next()?.parse().ok()?,
+            },
+            "stale_batch" => {
+                let ks = it.next()?.parse().ok()?;
+                Op::StaleBatch {
+                    ks,
+                    items: items_of(it.next())?,
+                }
+            }
             "rotate" => Op::Rotate {
                 ks: it.next()?.parse().ok()?,
             },
